@@ -323,11 +323,24 @@ CK_RV P11Attribute::retrieve(Token *token, bool isPrivate, CK_VOID_PTR pValue, C
 		// Only copy when there is actually something to copy
 		CK_RV rv = CKR_OK;
 
+		// The stored value must have the size that was announced. This is
+		// not a given for a fixed size attribute of an object that was read
+		// from a damaged store: it may hold a value of another kind.
 		if (attr.isUnsignedLongAttribute()) {
+			if (attrSize != sizeof(CK_ULONG))
+			{
+				ERROR_MSG("Internal error: the stored attribute is not of the expected kind");
+				return CKR_GENERAL_ERROR;
+			}
 			*(CK_ULONG_PTR)pValue = attr.getUnsignedLongValue();
 		}
 		else if (attr.isBooleanAttribute())
 		{
+			if (attrSize != sizeof(CK_BBOOL))
+			{
+				ERROR_MSG("Internal error: the stored attribute is not of the expected kind");
+				return CKR_GENERAL_ERROR;
+			}
 			*(CK_BBOOL*)pValue = attr.getBooleanValue() ? CK_TRUE : CK_FALSE;
 		}
 		else if (attr.isByteStringAttribute())
@@ -341,15 +354,31 @@ CK_RV P11Attribute::retrieve(Token *token, bool isPrivate, CK_VOID_PTR pValue, C
 					return CKR_GENERAL_ERROR;
 				}
 				if (value.size() !=  0) {
+					if (value.size() != attrSize)
+					{
+						ERROR_MSG("Internal error: the stored attribute is not of the expected size");
+						return CKR_GENERAL_ERROR;
+					}
 					const unsigned char* attrPtr = value.const_byte_str();
 					memcpy(pValue,attrPtr,attrSize);
 				}
 			}
 			else if (attr.getByteStringValue().size() != 0)
 			{
+				if (attr.getByteStringValue().size() != attrSize)
+				{
+					ERROR_MSG("Internal error: the stored attribute is not of the expected size");
+					return CKR_GENERAL_ERROR;
+				}
 				const unsigned char* attrPtr = attr.getByteStringValue().const_byte_str();
 				memcpy(pValue,attrPtr,attrSize);
 			}
+		}
+		else if (size != (CK_ULONG)-1)
+		{
+			// No fixed size attribute is a mechanism set or a template
+			ERROR_MSG("Internal error: the stored attribute is not of the expected kind");
+			return CKR_GENERAL_ERROR;
 		}
 		else if (attr.isMechanismTypeSetAttribute())
 		{
